@@ -202,7 +202,7 @@ func cKnobs(c *ctx, dialect string, i int, o *wgenOpts, knob *string) {
 	o.scalarSel = dialect != "msl"
 	o.multiSwz = dialect != "msl" // C04 finding: MSL writes `a + b.yx` for `(a + b).yx`
 	o.contLet = false
-	o.pack4 = false // the `|` chains of pack4xU8 are a recorded finding decided by a shape tag that only cmdCSem computes
+	o.pack4 = true // (off while the bare `|` chains of pack4xU8 were a recorded finding; repaired by 654e66f, 8fca8d5, 806e4ad)
 	o.fround = dialect == "hlsl" // HLSL round: halfway cases to the nearest even, as WGSL
 	o.noValIdx = dialect == "msl"
 	o.noPreLet = dialect == "msl"
